@@ -3,7 +3,7 @@
 Require Extraction.
 Require Import ExtrOcamlBasic.
 From Coq Require Import Strings.Byte.
-From Sftp Require Import Base.GoSem Mode.FileMode Wire.Prim Wire.Packets Wire.ClientParse Srv.ReadOnly.
+From Sftp Require Import Base.GoSem Mode.FileMode Wire.Prim Wire.Packets Wire.ClientParse Srv.ReadOnly Srv.Negotiate.
 Extraction Language OCaml.
 Extraction "model.ml"
   Byte.of_bits Byte.to_bits
@@ -12,4 +12,5 @@ Extraction "model.ml"
   encA encB decA decB_request decB_response recv_frame recv_frame_B attrs_dec attrs_alloc_cells decB_name_alloc_cells guardB
   rawify wf_packet ptype
   client_safe parse_status_only parse_handle parse_attrs parse_name1 parse_readdir parse_statvfs parse_data read_chunk path_base
-  gate ro_fixed may_mutate effects reading_request.
+  gate ro_fixed may_mutate effects reading_request
+  supported run_set recv_version has_extension ext_reaction sync_sends version_reply.
